@@ -30,7 +30,7 @@ Theorem C10_stage_value (R : cring) thr maxr (Ks : list (M R)) even fuel pos ans
   (length cs < fuel)%nat -> stage_hyp thr maxr Ks even fuel pos answers cs ->
   linked cs fin -> below xs (rows cs) -> (a < rl_of cs fin)%nat -> (b < fin)%nat ->
   chain (stage_cores thr maxr Ks even fuel pos answers cs) xs (StageProof.zeros (length cs)) a b =
-  msum (rows cs) (fun ys => Wst Ks even fuel pos (rows cs) xs ys * chain cs ys (StageProof.zeros (length cs)) a b).
+  msum (rows cs) (fun ys => (Wst Ks even fuel pos (rows cs) xs ys * chain cs ys (StageProof.zeros (length cs)) a b)%cr).
 Proof. exact (stage_value thr maxr Ks even fuel pos answers cs xs a b fin). Qed.
 Print Assumptions C10_stage_value.
 
